@@ -131,4 +131,25 @@ CLAIMS['C17'] = {
     'note': COMMON_NOTE + "doc lines are single lines; enum variant docs are not part of the property.",
     'technique': 'Lean 4 proof (string-split/intercalate lemma on List Char; fold invariants; emitter unfolding) + differential correspondence + clause oracle',
 }
+CLAIMS['C07'] = {
+    'text': ("Theorems: addFunctions_spec / every_public_reexposed / private_not_reexposed – the functions added for a base field are exactly "
+             "the public ones of the base, each once, under its own name or <field>_<name> when taken, with receiver, parameters, return type "
+             "and convention unchanged and body `self.<field>.<original>`; injectBases_step – all bases in order, vftable functions for every "
+             "base but the first; forwarder_shape – the emitted forwarder drops the receiver and forwards the rest in order; "
+             "conversions_emitted / dfs_unfold – one AsRef/AsMut pair along the field path for each base type occurring once in the DFS "
+             "hierarchy, a marker and no conversion for a type occurring more than once. Correspondence plus an oracle that recomputes "
+             "the expected member and conversion lists of every derived type from the input and the implementation's output for its bases."),
+    'note': COMMON_NOTE + "that a forwarding call lands on the sub-object at the base's offset is Rust's field-projection semantics plus C01; not a theorem here, executed only in the thorough tier.",
+    'technique': 'Lean 4 proof (fold invariant of the injection loop; emitter unfolding) + differential correspondence + member-set oracle',
+}
+CLAIMS['C20'] = {
+    'text': ("One theorem per rewrite at the point of the model where the two spellings meet: explicit_address_noop(_at), gap_vs_address + "
+             "gap_region_named_like_padding, natural_size_noop, natural_index_noop (+ convertVfuncs_is_slotStep_fold), "
+             "implicit_enum_value_noop, reorder_definitions + unresolved_order_independent: the rewritten input drives the layout / slot / "
+             "enum code into the same state, so everything downstream is identical. On every run accepted worlds are rewritten by every "
+             "applicable rewrite (guided by the implementation's own output for the original) and the implementation's output files "
+             "must be byte-identical; model and implementation are compared on both."),
+    'note': COMMON_NOTE + "number spelling is the parser's business (C18 int_value); the composition of the per-stage theorems into one end-to-end equality of emitted bytes is not formalised (prettyplease is outside the model).",
+    'technique': 'Lean 4 proof (one lemma per rewrite; sorted-permutation uniqueness) + differential correspondence + byte-identity metamorphic oracle',
+}
 NOT_CLAIMED = {}
